@@ -162,6 +162,13 @@ func typeUnder(t types.Type) types.Type {
 	return t.Underlying()
 }
 
+func (g *Gen) noteRename(old, cur string) {
+	if g.renames == nil {
+		g.renames = map[string]string{}
+	}
+	g.renames[old] = cur
+}
+
 func (g *Gen) transIdent(x *Expr, env *Env) TV {
 	if tv, ok := env.vars[x.Name]; ok {
 		return tv
@@ -174,6 +181,19 @@ func (g *Gen) transIdent(x *Expr, env *Env) TV {
 	if x.Name == "world" {
 		// the object carrying global ghost state
 		return TV{"1", SInt, nil}
+	}
+	// a variable of the function that was renamed since the contracts were written (locals.go)
+	if alt, ok := g.aliasOf[x.Name]; ok {
+		if tv, ok := env.vars[alt]; ok {
+			g.noteRename(x.Name, alt)
+			return tv
+		}
+		if env.lookup != nil {
+			if tv, ok := env.lookup(alt, env); ok {
+				g.noteRename(x.Name, alt)
+				return tv
+			}
+		}
 	}
 	if v, ok := g.S.Consts[x.Name]; ok {
 		return TV{intLit(v), SInt, types.Typ[types.Int]}
@@ -225,6 +245,9 @@ func (g *Gen) transSel(x *Expr, env *Env) TV {
 			resolved := false
 			if env.lookup != nil {
 				_, resolved = env.lookup(id.Name, env)
+			}
+			if _, renamed := g.aliasOf[id.Name]; renamed {
+				resolved = true // a variable of the function under an earlier name (locals.go)
 			}
 			if !resolved {
 				if pk := g.P.AllPkgs[id.Name]; pk != nil {
